@@ -95,7 +95,10 @@ func runC17(p *Program, r *Result) {
 				idx := blockIndexOnPath(pa, ec.Block())
 				arg := pa.ResolveAt(ec.Common().Args[0], idx)
 				got := short(tb.Term(arg).String())
-				if got != `("age-plugin-" + P1)` {
+				// exec.Command searches PATH itself; handing it the result of an explicit
+				// LookPath of the same name (its error checked: R13/R15) starts the same file
+				lookedUp := got == `execabs.LookPath(("age-plugin-" + P1)).0` || got == `exec.LookPath(("age-plugin-" + P1)).0`
+				if got != `("age-plugin-" + P1)` && !lookedUp {
 					bad = "on the production path the program argument is " + got + ", not \"age-plugin-\" + name"
 				}
 			}
